@@ -3,7 +3,7 @@
 # apply /tmp/mut-<ID>-out/<n>/patch.diff, rebuild the test suite, run the full ctest, run the demo on the changed tree (must fail),
 # revert, run the demo on the clean tree (must pass).  Prints CONFIRM <ID> <n> ctest=<passed>/<total> demo_changed=<rc> demo_clean=<rc>.
 set -u
-id=$1; n=$2; W=/tmp/mut-$id; O=/tmp/mut-$id-out/$n; L=$O/confirm.log
+id=$1; n=$2; P=${MUTPFX:-mut}; W=/tmp/$P-$id; O=/tmp/$P-$id-out/$n; L=$O/confirm.log
 cd "$W" || exit 2
 git checkout -q -- . ; : > "$L"
 git apply "$O/patch.diff" || { echo "CONFIRM $id $n APPLY-FAILED"; exit 2; }
